@@ -34,6 +34,7 @@ from pymodbus.factory import ClientDecoder, ServerDecoder
 from pymodbus.framer.socket_framer import ModbusSocketFramer
 from pymodbus.framer.rtu_framer import ModbusRtuFramer
 from pymodbus.register_read_message import ReadHoldingRegistersRequest, ReadHoldingRegistersResponse
+from pymodbus.register_write_message import WriteSingleRegisterRequest
 from pymodbus.transaction import DictTransactionManager, FifoTransactionManager
 
 ASSUMPTIONS = [
@@ -54,7 +55,8 @@ TRUSTED = ['harness/c16.py: fake transport (twisted StringTransport subclass), e
 RULE = ('operation histories on one protocol instance x {tcp/dict, serial/fifo}: connectionMade, execute (requests '
         'with continuation trees up to depth 3: callback and/or errback re-enter execute), reply frames (to a pending '
         'tid, duplicate of an answered tid, unsolicited tid; several frames per dataReceived), connectionLost (also '
-        'twice, also followed by a new connectionMade), close() (transport with/without a close attribute; at every '
+        'twice, also followed by a new connectionMade), execute calls whose sending fails (un-encodable request, '
+        'transport.write raising), close() (transport with/without a close attribute; at every '
         'point of base histories, followed by late replies, further requests and the transport\'s connectionLost); all reply permutations for <= 5 outstanding, random histories '
         'with up to 12 (quick) / 300 (thorough) outstanding, connection loss inserted at every point of base histories, '
         'a wrap-around history of 65540 requests; non-trivial = at least one deferred fired; distinct by canonical JSON')
@@ -71,7 +73,12 @@ class Transport(StringTransport):
         StringTransport.__init__(self)
         self.real = real
 
+    fail_next = False
+
     def write(self, data, addr=None):
+        if self.fail_next:
+            self.fail_next = False
+            raise IOError('injected write failure')      # nothing reaches the peer, nothing is recorded as sent
         self.real.on_write(bytes(data))
 
 
@@ -176,6 +183,27 @@ class Real(object):
 
         d.addCallbacks(on_ok, on_err)
 
+    def do_execfail(self, where):
+        """an execute whose sending fails: the request cannot be encoded (register value 70000: struct.error in
+        buildPacket) or the transport's write raises (one-shot).  The call gets no request number: it must raise and
+        return no deferred."""
+        if where == 'encode':
+            request = WriteSingleRegisterRequest(1, 70000, unit=self.unit)
+        else:
+            request = ReadHoldingRegistersRequest(0xFFFF, 1, unit=self.unit)
+            self.transport.fail_next = True
+        try:
+            d = self.proto.execute(request)
+        except Exception as e:  # noqa
+            k = errkind(e)
+            if (where == 'encode' and k == 'struct') or (where == 'write' and isinstance(e, IOError) and 'injected' in str(e)):
+                self.events.append(['sendfail', where])
+            else:
+                self.events.append(['exc', k])
+        else:
+            self.transport.fail_next = False
+            self.events.append(['exc', 'other:execute-returned-%s-although-the-send-failed' % type(d).__name__])
+
     def frame(self, t, tag):
         resp = ReadHoldingRegistersResponse([tag & 0xFFFF])
         resp.transaction_id = t
@@ -208,6 +236,8 @@ class Real(object):
                 self.proto.close()
             elif op[0] == 'exec':
                 self.do_execute(op[1])
+            elif op[0] == 'execfail':
+                self.do_execfail(op[1])
             elif op[0] == 'reply':
                 return self.apply_replies([op])[0]
             else:
@@ -313,6 +343,8 @@ def check_trace(variant, ops, segs, table_ids, stats):
             bad('distinct', 'two outstanding requests carry the same transaction id before op %d' % idx)
         kind = op[0]
         down = kind == 'lost' or (kind in ('exec', 'reply') and not conn)
+        if kind == 'execfail' and es != [['sendfail', op[1]]]:
+            bad('send_fail', 'execute with a failing %s at op %d caused %r (expected only the exception)' % (op[1], idx, es[:4]))
         if kind == 'close':
             if [e for e in es if e[0] != 'tclose'] or len(es) != (1 if op[1] else 0):
                 bad('close_quiet', 'close() at op %d caused %r (expected only transport.close())' % (idx, es[:4]))
@@ -376,6 +408,9 @@ def check_trace(variant, ops, segs, table_ids, stats):
                         eb_here.add((rid, 'notconn'))
                     else:
                         bad('no_exc', 'deferred %d failed with %s' % (rid, e[2]))
+            elif e[0] == 'sendfail':
+                if kind != 'execfail':
+                    bad('send_fail', 'a send failure was reported during op %d %r' % (idx, op[:3]))
             elif e[0] == 'tclose':
                 if kind != 'close':
                     bad('close_quiet', 'transport.close() called during op %d %r' % (idx, op[:3]))
@@ -401,12 +436,15 @@ def check_trace(variant, ops, segs, table_ids, stats):
             conn = False            # after a local close() the client counts as disconnected
     if sorted(outstanding) != sorted(table_ids):
         lostd = sorted(set(outstanding) - set(table_ids))
-        stale = sorted(set(table_ids) - set(outstanding))
+        stale = sorted(set(table_ids) - set(outstanding) - {-1})
+        if -1 in table_ids:
+            bad('complete', 'the transaction table holds a deferred that no execute call returned (an orphan: it can only '
+                            'swallow a reply meant for a real request)')
         if lostd:
             bad('complete', 'requests %r are neither answered/failed nor in the transaction table' % (lostd[:5],))
         if stale:
             bad('complete', 'the transaction table still holds the deferreds of requests %r, which have fired' % (stale[:5],))
-        if not lostd and not stale:
+        if not lostd and not stale and -1 not in table_ids:
             bad('complete', 'the transaction table holds a deferred twice: %r' % (sorted(table_ids)[:8],))
     return problems, noroom
 
@@ -441,7 +479,13 @@ def expand(case):
         # are AIMED with a generator-side count of the ids that should be free (a mis-aimed reply is just unsolicited).
         n, hold = case.get('n', 65600), set(case.get('hold', [0]))
         ops, tid, held = [['made']], 0, set()
+        fe = case.get('failevery', 0)
         for i in range(n):
+            if fe and i % fe == fe - 1:
+                tid = (tid + 1) & 0xFFFF            # a failed send consumes an id too
+                while tid in held:
+                    tid = (tid + 1) & 0xFFFF
+                ops.append(['execfail', 'encode' if (i // fe) % 2 else 'write'])
             tid = (tid + 1) & 0xFFFF
             while tid in held:
                 tid = (tid + 1) & 0xFFFF
@@ -590,7 +634,10 @@ def gen_random(rng, variant, max_out, length, tag='random', proto=None):
                 t = s.real.unit     # an RTU reply carries no transaction id: the framer reports the unit id
             s.push(['reply', t, rng.randrange(65536)], joined=prev_reply and rng.random() < 0.4)
             prev_reply = True
-        elif r < 0.965:
+        elif r < 0.955:
+            s.push(['execfail', rng.choice(['encode', 'write'])])
+            prev_reply = False
+        elif r < 0.968:
             s.push(['close', rng.randrange(2)])
             prev_reply = False
             if rng.random() < 0.5:
@@ -694,6 +741,35 @@ def close_scenario(rng, variant, n):
     if rng.random() < 0.3:
         ops.append(['lost'])
     return dict(kind='hist', variant=variant, unit=1, ops=ops, join=[], tag='close-loss')
+
+
+def failed_send_scenario(rng, variant, n, proto=None):
+    """executes whose sending fails (un-encodable request / transport.write raising) before and between n real
+    requests; then the replies of the real requests (serial: in order; TCP: any order), a connection loss, a late
+    request.  A failed execute must leave nothing behind: every reply still reaches its own request."""
+    s = Sim(variant, pick_unit(rng), proto)
+    s.push(['made'])
+    if rng.random() < 0.7:
+        s.push(['execfail', rng.choice(['encode', 'write'])])
+    for _ in range(n):
+        s.push(['exec', gen_req(rng, 1)])
+        if rng.random() < 0.4:
+            s.push(['execfail', rng.choice(['encode', 'write'])])
+    tids = list(s.out.values())
+    if variant == 'dict':
+        rng.shuffle(tids)
+    for t in tids[:max(0, len(tids) - rng.randrange(0, 2))]:
+        s.push(['reply', t if variant == 'dict' else s.real.unit, rng.randrange(65536)])
+        if rng.random() < 0.2:
+            s.push(['execfail', rng.choice(['encode', 'write'])])
+    if proto != 'udp':
+        if rng.random() < 0.3:
+            s.push(['close', rng.randrange(2)])
+            s.push(['execfail', rng.choice(['encode', 'write'])])
+        s.push(['lost'])
+        s.push(['execfail', rng.choice(['encode', 'write'])])
+        s.push(['exec', {'err': {}}])
+    return s.case('failed-send')
 
 
 def reentrant_loss(rng, variant, n):
@@ -915,6 +991,8 @@ def net_reconnect(rng, variant, cls):
     a = s.open()
     s.on(a, ['made'])
     for _ in range(rng.randrange(1, 4)):
+        if rng.random() < 0.25:
+            s.on(a, ['execfail', rng.choice(['encode', 'write'])])
         s.on(a, ['exec', gen_req(rng, 1)])
     stream = s.replies_for(rng, a)
     cut = rng.randrange(1, len(stream))
@@ -923,6 +1001,8 @@ def net_reconnect(rng, variant, cls):
     s.on(a, ['lost'])
     b = s.open()
     s.on(b, ['made'])
+    if rng.random() < 0.4:
+        s.on(b, ['execfail', rng.choice(['encode', 'write'])])
     for _ in range(rng.randrange(1, 4)):
         s.on(b, ['exec', gen_req(rng, 1)])
     s.on(b, ['data', s.replies_for(rng, b)])            # whole replies in one read
@@ -944,6 +1024,8 @@ def net_interleaved(rng, variant, cls, nconn=2):
     for _ in range(rng.randrange(1, 3)):
         for i in ids:
             for _ in range(rng.randrange(1, 4)):
+                if rng.random() < 0.25:
+                    s.on(i, ['execfail', rng.choice(['encode', 'write'])])
                 s.on(i, ['exec', gen_req(rng, 1)])
         queues = [cut_chunks(rng, s.replies_for(rng, i), rng.randrange(1, 5)) for i in ids]
         while any(queues):
@@ -966,8 +1048,10 @@ def net_random(rng, variant, cls, length):
             s.open()
         elif r < 0.2:
             s.on(i, ['made'])
-        elif r < 0.5:
+        elif r < 0.46:
             s.on(i, ['exec', gen_req(rng, 2)])
+        elif r < 0.5:
+            s.on(i, ['execfail', rng.choice(['encode', 'write'])])
         elif r < 0.85:
             if not pend.get(i) and s.out[i]:
                 pend[i] = s.replies_for(rng, i)
@@ -1007,6 +1091,10 @@ def run(ctx):
         for n in (0, 1, 2, 3, 5):
             for _ in range(ctx.scale(4, 12)):
                 batch.append(close_scenario(rng, variant, n))
+        for n in (1, 2, 3, 5):
+            for proto in ((None, 'udp', 'factory') if variant == 'dict' else (None,)):
+                for _ in range(ctx.scale(3, 10)):
+                    batch.append(failed_send_scenario(rng, variant, n, proto))
     check_cases(ctx, rep, batch)
     # all reply permutations
     for variant in ('dict', 'fifo'):
@@ -1064,7 +1152,7 @@ def run(ctx):
         wraps.append(dict(kind='wrap', variant='dict', n=n, leave_last=True, first={'err': {}}, tag='long-lived',
                           tail=[['reply', 1, 9], ['reply', 1, 10], ['lost']]))
     # several requests held pending across the wrap: their ids are skipped when the counter comes round
-    wraps.append(dict(kind='wrap-hold', variant='dict', n=65560, hold=[0, 3, 4, 70],
+    wraps.append(dict(kind='wrap-hold', variant='dict', n=65560, hold=[0, 3, 4, 70], failevery=997,
                       tail=[['reply', 5, 9], ['reply', 1, 8], ['reply', 1, 8], ['exec', None], ['lost'], ['exec', None]]))
     if not ctx.quick:
         wraps.append(dict(kind='wrap-hold', variant='dict', n=131200, hold=[1, 2, 65000, 65540],
